@@ -40,6 +40,11 @@ func mergeMaps(left, right map[string]interface{}) map[string]interface{} {
 
 func getLeftEntityPosition(left []interface{}, id interface{}) int {
 	leftEntityPosition := -1
+	// lists and objects cannot identify an entity, and comparing them panics
+	switch id.(type) {
+	case []interface{}, map[string]interface{}:
+		return leftEntityPosition
+	}
 	for lIdx, lv := range left {
 		if lMap, ok := lv.(map[string]interface{}); ok {
 			if lID, ok := lMap[common.IDFieldName]; ok && lID == id {
